@@ -61,6 +61,12 @@ func loadShared() (*sharedInputs, error) {
 	for i := range s.pal {
 		s.pal[i] = color.RGBA{uint8(3 * i), uint8(255 - 2*i), uint8(i), 0xff}
 	}
+	s.freshShareables()
+	return s, nil
+}
+
+// freshShareables (re)creates the option values, the option list and the stop table that pipelines share.
+func (s *sharedInputs) freshShareables() {
 	s.opts = make([]decode.DecodeOption, 2, 4)
 	s.opts[0] = decode.WithPalette(s.pal)
 	s.opts[1] = decode.WithColorAt(5, color.NRGBA{200, 100, 50, 128})
@@ -71,7 +77,6 @@ func loadShared() (*sharedInputs, error) {
 	s.badPalOpt = decode.WithPalette(badPal)
 	s.stops = []generate.GradientStop{{Offset: 0.5, Color: color.RGBA{0xff, 0, 0, 0xff}}, {Offset: 0.25, Color: color.NRGBA{0, 0xff, 0, 0x80}},
 		{Offset: 0.75, Color: color.RGBA{0, 0, 0xff, 0xff}}, {Offset: 0.125, Color: color.Gray{0x80}}}
-	return s, nil
 }
 
 func (s *sharedInputs) hash() string {
@@ -390,6 +395,45 @@ func runC18(args []string) error {
 		w.Close()
 		summary(map[string]interface{}{"schedules": nsched, "runs": runs, "mismatches": nmis, "pipelines": len(ps)})
 	case "free":
+		// bursts first: FRESH shared option values / option lists / stop tables each round, used by eight goroutines that
+		// start together (a library that touches such an object only the first time it sees it is caught in the act)
+		{
+			sharing := []string{"decode-shared-option-value/0", "decode-shared-option-value/1", "decode-shared-option-value/2",
+				"decode-shared-opts/1/0", "decode-shared-opts/2/1", "generator-shared-stops/3", "generator-shared-stops/4", "decode-shared-option-value/0"}
+			burstEnd := time.Now().Add(time.Duration(*secs * float64(time.Second) / 4))
+			for round := 0; time.Now().Before(burstEnd) || round < 20; round++ {
+				s2 := *s
+				s2.freshShareables()
+				// the reference hash comes from another fresh set: hashing applies every option to a probe, and the set
+				// handed to the goroutines must not have been used by anything before them
+				s3 := *s
+				s3.freshShareables()
+				h2 := s3.hash()
+				start := make(chan struct{})
+				var bw sync.WaitGroup
+				for g := 0; g < len(sharing); g++ {
+					bw.Add(1)
+					go func(g int) {
+						defer bw.Done()
+						p := byName[sharing[(g+round)%len(sharing)]]
+						<-start
+						out := p.run(&s2, runtime.Gosched)
+						mu.Lock()
+						runs++
+						mu.Unlock()
+						if d := digest(out); d != baseline[p.name] {
+							report("result", p.name+" in a burst over fresh shared objects", map[string]string{"got": d, "alone": baseline[p.name]})
+						}
+					}(g)
+				}
+				close(start)
+				bw.Wait()
+				if s2.hash() != h2 {
+					report("shared", "a burst wrote to the fresh shared objects", nil)
+					break
+				}
+			}
+		}
 		deadline := time.Now().Add(time.Duration(*secs * float64(time.Second)))
 		var wg sync.WaitGroup
 		nw := 2 * runtime.GOMAXPROCS(0)
